@@ -11,7 +11,7 @@ from harness import c07_dispatch as D
 META = {
     "id": "C07",
     "technique": "Coq proof (induction over line lists: _strip_inline_comment vs Python's comment rule, _collect_block vs Python's block rule, round trip of the block-skeleton parser over every layout of the re-layout relation; reflection over the translator-generated line-accounting table) + extracted-model correspondence with the real lexical functions, header regexes and the recorded _parse_simple_lines call tree + CPython tokenize/ast validation of the specification + re-layout metamorphism and line-accounting oracles on the real parse()+emit() with the REDUINO_VERIF hook",
-    "level_text": "Theorems C07_* (coq/Props/C07.v) are proved for all line lists about a Gallina model of the lexical layer of parser.py (Lang/Lex.v) against a hand-written model of Python's layout rules (Lang/PyLayout.v, validated against CPython's tokenizer and ast on every run). Block extent and comment stripping are proved inside explicit guards and refuted outside them by concrete witnesses (mixed tabs, '#' in a triple-quoted literal); comment-only lines at any column, trailing comments on column-0 headers and on elif/else/except are inside the guards since the repair of the comment handling (fixed findings, replayed on every run); the line-accounting table (69 statement kinds x 4 contexts) is regenerated from the current parser and checked by computation against the fixed set of the property plus the listed gaps. The model is run against the real functions on enumerated and generated inputs; the property's own relations (same firmware across layouts; no unlisted line disappears) are evaluated on the real transpiler.",
+    "level_text": "Theorems C07_* (coq/Props/C07.v) are proved for all line lists about a Gallina model of the lexical layer of parser.py (Lang/Lex.v) against a hand-written model of Python's layout rules (Lang/PyLayout.v, validated against CPython's tokenizer and ast on every run). Block extent and comment stripping are proved inside explicit guards and refuted outside them by concrete witnesses (mixed tabs, '#' in a triple-quoted literal); comment-only lines at any column, trailing comments on column-0 headers and on elif/else/except are inside the guards since the repair of the comment handling (fixed findings, replayed on every run); the line-accounting table (69 statement kinds x 4 contexts) is regenerated from the current parser and checked by computation against the fixed set of the property plus the listed gaps; `continue` left the listed gaps with the repair of the parser (fixed finding, replayed on every run) and is pinned: translated in a for/while loop and at the level of the main loop, rejected outside any loop. The model is run against the real functions on enumerated and generated inputs; the property's own relations (same firmware across layouts; no unlisted line disappears) are evaluated on the real transpiler.",
     "level_note": "Trusted: Coq kernel, translator harness/gen/dispatch.py (black-box observation of parse+emit), extraction, OCaml driver, CPython tokenize/ast as 'what Python means'. Theorems are about the model; statement-level dispatch (the regex chain inside a line) is observed, not modelled.",
     "design_ref": "DESIGN.md section 4 C07, Appendix B.5",
 }
@@ -107,6 +107,22 @@ def run(ctx: C.Ctx):
                          {"exc": r[0]["exc"], "firmware": _diff_hint(r[0]["cpp"], r[1]["cpp"], True)},
                          {"exc": r[1]["exc"], "firmware": _diff_hint(r[0]["cpp"], r[1]["cpp"], False)},
                          key="fixed-defect-returned:" + f["id"])
+        elif wit.get("mode") == "silent-drop":
+            pairs = [(k, cname) for k in wit["kinds"] for cname in wit["contexts"]]
+            cs = []
+            for k, cname in pairs:
+                cs += [["trace", D.build(k, cname, True).splitlines()], ["trace", D.build(k, cname, False).splitlines()]]
+            r = C.run_impl("c07_impl.py", {"cases": cs})
+            evaluations += len(pairs)
+            for j, (k, cname) in enumerate(pairs):
+                w, wo = r[2 * j], r[2 * j + 1]
+                if not w["exc"] and not wo["exc"] and w["cpp"] == wo["cpp"]:
+                    ctx.fail(f"repaired defect {f['id']} is back: {f['what']}",
+                             {"finding": f["id"], "kind": k, "context": cname, "script": D.build(k, cname, True).splitlines(),
+                              "probe": D.KINDS[D.KIND_IDS.index(k)][1], "witness": wit},
+                             "translated or rejected", "identical firmware with and without the statement",
+                             key="fixed-defect-returned:" + f["id"])
+                    break
 
     # ================================================================ programs and layouts
     n_prog = 300 if thorough else 50
@@ -179,6 +195,18 @@ def run(ctx: C.Ctx):
                 if not re.search(r"(?<![0-9])" + str(meta[1]) + r"(?![0-9])", cpp):
                     ctx.fail(f"statement {G.canon_spacing(tmpl)!r} left no trace in the firmware and no diagnostic was raised", {"script": lines},
                              f"{meta[1]} occurs in the emitted text", "absent", key="statement-lost")
+        # `continue` (repaired defect, generated since): one `continue;` per `continue` whose innermost loop is a
+        # for/while, one `return;` in loop() per `continue` at the level of the main loop (it ends the pass)
+        want_c = sum(1 for _, meta, _ in G.leaves(progs[pi]) if meta == ("continue", "loop"))
+        want_r = sum(1 for _, meta, _ in G.leaves(progs[pi]) if meta == ("continue", "main"))
+        got_c = len(re.findall(r"(?m)^\s*continue;\s*$", cpp))
+        got_r = len(re.findall(r"(?m)^\s*return;\s*$", cpp.split("void loop() {", 1)[-1]))
+        if base[pi][0] is lines:
+            for kname, v in (("continue_in_for_or_while", want_c), ("continue_at_main_loop_level", want_r)):
+                dist["formerly_excluded_now_generated"][kname] = dist["formerly_excluded_now_generated"].get(kname, 0) + v
+        if got_c != want_c or got_r != want_r:
+            ctx.fail("a `continue` statement left no trace in the firmware (or was duplicated) and no diagnostic was raised", {"script": lines},
+                     {"continue;": want_c, "return; in loop()": want_r}, {"continue;": got_c, "return; in loop()": got_r}, key="continue-lost")
         for ent in r.get("ignored") or []:
             evaluations += 1
             if not ALLOWED_LINE.match(ent[2]):
@@ -378,7 +406,7 @@ def run(ctx: C.Ctx):
     ctx.coverage.update({
         "evaluations": evaluations,
         "distinct_nontrivial": len(nontrivial),
-        "rule": ("programs: seeded random block trees (depth<=4) of observable statements (distinct numbers in mon.write/x=/sleep, device calls, "
+        "rule": ("programs: seeded random block trees (depth<=4) of observable statements (distinct numbers in mon.write/x=/sleep, device calls, `continue` inside for/while loops and at the level of the main loop - directly or inside nested if/try blocks -, "
                  "lines of the fixed set: pass/print/import/global/docstrings) with if/elif/else, try/except, while, for-range, def, main loop; "
                  f"each in canonical layout + {n_lay} random layouts inside the guard (junk lines - blank, white-space-only, comment-only at any column from 0 to deeper than the statement - before any statement including elif/else/except, trailing blanks/comments after any statement including column-0 headers, def, the main loop header, imports and elif/else/except, "
                  "indent unit 1-8 spaces / tab / two tabs, optional spacing at marked places) + out-of-guard perturbations (model-vs-code only). "
